@@ -3,7 +3,7 @@ import collections
 from ._util import verdict_stats, op_stats
 
 HARNESS = dict(pkg="signaling", test="TestVerifHub",
-               files=["zz_verif_hub_test.go", "zz_verif_hubops_test.go"], timeout=1500, confirm=True, cache=True)
+               files=["zz_verif_hub_test.go", "zz_verif_hubops_test.go"], timeout=1500, confirm=True, cache=True, workers=6)
 
 
 def canon(line):
